@@ -61,6 +61,7 @@ class State:
         self.frames = []
         self.tok = object()
         self.lastmodel = None
+        self.known = {}
         self.watch = ([], [])
         self.trunc = None
         self.inp = []        # current input stream cells
@@ -780,6 +781,7 @@ class Engine:
             stack.append(c)
 
     def sat(self, st, cond, want_model=False):
+        """is cond satisfiable together with the path constraint of st?"""
         if not is_sym(cond):
             return bool(cond)
         cond = z3.simplify(cond)
@@ -787,7 +789,22 @@ class Engine:
             return True
         if z3.is_false(cond):
             return False
-        m = getattr(st, "lastmodel", None)
+        # facts cache: conditions already known to be valid / unsatisfiable under (a prefix of) this path
+        known = st.known
+        cid = cond.get_id()
+        k = known.get(cid)
+        if k is not None:
+            self.stats["facthit"] = self.stats.get("facthit", 0) + 1
+            return k[0]
+        neg = None
+        if z3.is_not(cond):
+            neg = cond.arg(0)
+            k = known.get(neg.get_id())
+            if k is not None and k[2]:
+                # the negation is valid -> cond unsat; the negation is unsat -> cond valid
+                self.stats["facthit"] = self.stats.get("facthit", 0) + 1
+                return not k[0]
+        m = st.lastmodel
         if m is not None:
             try:
                 if z3.is_true(m.eval(cond, model_completion=True)):
@@ -801,14 +818,24 @@ class Engine:
         s.push()
         s.add(cond)
         r = s.check()
-        if r == z3.sat and getattr(st, "lastmodel", None) is None:
+        if r == z3.sat and st.lastmodel is None:
             st.lastmodel = s.model()
         s.pop()
         self.stats["queries"] += 1
         self.stats["qtime"] += time.time() - t0
         if r == z3.unknown:
             raise PathEnd("unknown", "solver unknown")
+        if r == z3.unsat:
+            # (satisfiable?, expr kept alive so that the AST id is not recycled, decided=valid-or-unsat)
+            known[cid] = (False, cond, True)
         return r == z3.sat
+
+    def note_valid(self, st, cond):
+        """record that cond is implied by the path constraint of st"""
+        if is_sym(cond):
+            c = z3.simplify(cond)
+            if not (z3.is_true(c) or z3.is_false(c)):
+                st.known[c.get_id()] = (True, c, True)
 
     def values(self, st, x, limit=65):
         """enumerate feasible values of bitvector x (up to limit)"""
@@ -861,71 +888,85 @@ class Engine:
                                 "replay": rp, "reached": list(st.reached), "user": dict(st.user)})
         return PathEnd("violation", msg)
 
-    def minval(self, st, x):
-        # smallest feasible unsigned value of x under pc: descending model search, then binary search
+    def minval(self, st, x, above=None):
+        """smallest feasible unsigned value of x under pc (and > above): windowed search, few queries in the
+        common case of small counts"""
         self.sync(st)
         s = self.solver
+        w = x.size()
         s.push()
         try:
+            if above is not None:
+                s.add(z3.UGT(x, above))
+            lo = 0 if above is None else above + 1
+            # try the immediate candidate first (counts are usually unconstrained)
+            s.push()
+            s.add(x == lo)
             r = s.check()
             self.stats["queries"] += 1
-            if r != z3.sat:
-                return None
-            v = s.model().eval(x, model_completion=True).as_long()
-            it = 0
-            lo = 0
-            while v > lo:
-                it += 1
-                if it <= 6:
-                    s.push()
-                    s.add(z3.ULT(x, v))
-                    r = s.check()
-                    self.stats["queries"] += 1
-                    if r == z3.sat:
-                        v = s.model().eval(x, model_completion=True).as_long()
-                        s.pop()
-                        continue
-                    s.pop()
-                    return v
-                mid = (lo + v - 1) // 2
+            s.pop()
+            if r == z3.sat:
+                return lo
+            if r == z3.unknown:
+                raise PathEnd("unknown", "solver unknown")
+            v = None
+            for hi in (lo + 64, lo + 4096, (1 << w) - 1):
+                hi = min(hi, (1 << w) - 1)
                 s.push()
-                s.add(z3.UGE(x, lo), z3.ULE(x, mid))
+                s.add(z3.ULE(x, hi))
                 r = s.check()
                 self.stats["queries"] += 1
                 if r == z3.sat:
                     v = s.model().eval(x, model_completion=True).as_long()
-                else:
+                s.pop()
+                if r == z3.unknown:
+                    raise PathEnd("unknown", "solver unknown")
+                if v is not None:
+                    break
+            if v is None:
+                return None
+            # binary search in (lo, v]
+            lo += 1
+            while lo < v:
+                mid = (lo + v - 1) // 2
+                s.push()
+                s.add(z3.ULE(x, mid))
+                r = s.check()
+                self.stats["queries"] += 1
+                if r == z3.sat:
+                    v = s.model().eval(x, model_completion=True).as_long()
+                elif r == z3.unsat:
                     lo = mid + 1
+                else:
+                    s.pop()
+                    raise PathEnd("unknown", "solver unknown")
                 s.pop()
             return v
         finally:
             s.pop()
 
     def concretize(self, st, x, maxvals=None, what="value"):
-        """return a concrete value of x for st; fork other feasible small values (re-executing the current instruction)"""
+        """return a concrete value of x for st; fork the other small feasible values (each re-executes the current
+        instruction); values beyond the maxvals smallest are cut and counted in bound_cuts"""
         if not is_sym(x):
             return x
+        if z3.is_bool(x):
+            x = bv(x, 8)
         if maxvals is None:
             maxvals = self.B + 1
         vals = []
-        cur = st
-        lowbound = None
+        above = None
         while len(vals) < maxvals:
-            c = z3.BoolVal(True) if lowbound is None else z3.UGT(x, lowbound)
-            if not self.sat(st, c):
-                break
-            tmp_pc = list(st.pc)
-            st.pc.append(c)
-            v = self.minval(st, x)
-            st.pc = tmp_pc
+            v = self.minval(st, x, above)
             if v is None:
                 break
             vals.append(v)
-            lowbound = v
+            above = v
+            if v == (1 << x.size()) - 1:
+                break
         if not vals:
             raise PathEnd("infeasible")
-        more = self.sat(st, z3.UGT(x, vals[-1]))
-        if more:
+        if len(vals) == maxvals and vals[-1] != (1 << x.size()) - 1 and self.sat(st, z3.UGT(x, vals[-1])):
             self.stats["bound_cuts"] = self.stats.get("bound_cuts", 0) + 1
         for v in vals[1:]:
             o = self.fork(st)
@@ -1279,6 +1320,7 @@ class Engine:
         n.tok = object()
         st.tok = object()
         n.lastmodel = st.lastmodel
+        n.known = dict(st.known)
         n.watch = (list(st.watch[0]), list(st.watch[1]))
         n.trunc = st.trunc
         n.inp = list(st.inp)
@@ -1495,20 +1537,34 @@ class Engine:
         fr.ip = 0
 
     def branch(self, st, work, c, bt, bf):
+        fr = st.frames[-1]
+        c = z3.simplify(c)
+        if z3.is_true(c):
+            return self.goto(fr, bt)
+        if z3.is_false(c):
+            return self.goto(fr, bf)
+        k = st.known.get(c.get_id())
+        if k is not None and k[2]:
+            self.stats["facthit"] = self.stats.get("facthit", 0) + 1
+            return self.goto(fr, bt if k[0] else bf)
         ct = self.sat(st, c)
         cf = self.sat(st, z3.Not(c))
-        fr = st.frames[-1]
         if ct and cf:
             self.stats["forks"] += 1
             other = self.fork(st)
-            self.add_pc(other, z3.Not(c))
+            nc = z3.Not(c)
+            self.add_pc(other, nc)
+            other.known[c.get_id()] = (False, c, True)
             self.goto(other.frames[-1], bf)
             work.append(other)
             self.add_pc(st, c)
+            st.known[c.get_id()] = (True, c, True)
             self.goto(fr, bt)
         elif ct:
+            st.known[c.get_id()] = (True, c, True)
             self.goto(fr, bt)
         elif cf:
+            st.known[c.get_id()] = (False, c, True)
             self.goto(fr, bf)
         else:
             raise PathEnd("infeasible")
@@ -1528,6 +1584,8 @@ class Engine:
             targets.append((d, default))
         if not targets:
             raise PathEnd("infeasible")
+        if len(targets) == 1:
+            self.note_valid(st, targets[0][0])
         for c, cb in targets[1:]:
             other = self.fork(st)
             self.add_pc(other, c)
